@@ -346,11 +346,19 @@ func run(w *vh.W, c *jcase) {
 }
 
 var floatPool = []float64{0, 1, -1, 2, 0.5, 0.1, 0.2, 0.3, 1e16, -1e16, 3, 1e308, -1e308, 5e-324, math.Copysign(0, -1), 1.5, 7, 1e-7, 123456.789}
+
+// values whose float64 sums are inexact / order dependent (0.1+0.2+0.3, 1e16+1-1e16, ...)
+var inexactPool = []float64{0.1, 0.2, 0.3, 1e16, -1e16, 1, 1e-9, 3.3, 0.7, -0.1, 1e-7, 123456.789, 1.0 / 3.0, 2.5e15}
 var intPool = []int64{0, 1, -1, 2, 3, -7, 10, 100, math.MaxInt64, math.MinInt64, 1<<53 + 1, -(1<<53 + 1), 1 << 62}
 var uintPool = []uint64{0, 1, 2, 3, 9, 100, math.MaxUint64, 1 << 63, 1<<53 + 1, 1<<63 + 1025}
 
-func genVal(w *vh.W, ty string, wild bool) uint64 {
+// mode: 0 small exact values, 1 extremes/specials, 2 (floats) values with inexact sums
+func genVal(w *vh.W, ty string, mode int) uint64 {
 	r := w.Rng
+	wild := mode == 1
+	if ty == "float" && mode == 2 {
+		return math.Float64bits(inexactPool[r.IntN(len(inexactPool))])
+	}
 	switch ty {
 	case "int":
 		if wild {
@@ -376,7 +384,7 @@ func genVal(w *vh.W, ty string, wild bool) uint64 {
 	return uint64(r.IntN(len(wmock.StrPool)))
 }
 
-func gen(w *vh.W, n int, every, off int64, gapMode int, ty string) wmock.Series {
+func gen(w *vh.W, n int, every, off int64, gapMode int, ty string, forceMode ...int) wmock.Series {
 	r := w.Rng
 	s := wmock.Series{Ty: ty}
 	bases := []int64{0, -50, 3, -5, 1000, -1000000007, 1600000000000000000}
@@ -384,10 +392,16 @@ func gen(w *vh.W, n int, every, off int64, gapMode int, ty string) wmock.Series 
 	if r.IntN(3) == 0 { // start right at / next to a window boundary
 		t = off + every*int64(r.IntN(5)-2) + int64(r.IntN(3)-1)
 	}
-	wild := r.IntN(3) == 0
+	mode := r.IntN(3)
+	if ty != "float" && mode == 2 {
+		mode = 0
+	}
+	if len(forceMode) > 0 {
+		mode = forceMode[0]
+	}
 	for i := 0; i < n; i++ {
 		s.T = append(s.T, t)
-		s.V = append(s.V, genVal(w, ty, wild))
+		s.V = append(s.V, genVal(w, ty, mode))
 		var g int64
 		switch gapMode {
 		case 0:
@@ -443,7 +457,7 @@ func genSizes(w *vh.W, n int) []int {
 
 func main() {
 	w := vh.New("C20", "From Coq Require Import Floats.SpecFloat.\nFrom Verif Require Import Base.Prelude Model.C20.\nOpen Scope Z_scope.", "case", "check")
-	w.Rule = "a series of 0-3000 strictly increasing timestamps (negative, around window boundaries, dense / one per window / sparse) of one of the 5 field types (values incl. int64/uint64 extremes, 2^53+1, float specials), split into arrays (all sizes 1..1500, all-1, exactly 999/1000/1001) dealt to 1-3 shard iterators; window every in {1,2,3,5,10,60,1000,1e9} ns and offset in {0,+-1,every-1,every,every+1,2every+3,-every,-every-1} (or the whole-series request every=MaxInt64), sent as WindowEvery/Offset or as a Window message; each supported aggregate (count/sum/min/max/mean/first/last) is run through reads.NewWindowAggregateResultSet and every array returned by Next() is recorded. Hand-picked cases with exactly 999/1000/1001/2001/1200 windows come first; ~3% of random cases have 1001-2500 points, mostly one per window (the tmp carry-over path); cases with >=100 points run a random 3-4 of the aggregates (term size), the others all supported ones. Non-trivial: >=2 points and (>=2 input arrays or >=2 windows). Distinct: distinct terms."
+	w.Rule = "a series of 0-3000 strictly increasing timestamps (negative, around window boundaries, dense / one per window / sparse) of one of the 5 field types (values incl. int64/uint64 extremes, 2^53+1, float specials, and for a third of the float series values with inexact, order-dependent sums {0.1,0.2,0.3,1e16,-1e16,1,1e-9,3.3,..}; half of the float series are dense inside wide windows so that whole arrays fall inside an already open window), split into arrays (all sizes 1..1500, all-1, exactly 999/1000/1001) dealt to 1-3 shard iterators; window every in {1,2,3,5,10,60,1000,1e9} ns and offset in {0,+-1,every-1,every,every+1,2every+3,-every,-every-1} (or the whole-series request every=MaxInt64), sent as WindowEvery/Offset or as a Window message; each supported aggregate (count/sum/min/max/mean/first/last) is run through reads.NewWindowAggregateResultSet and every array returned by Next() is recorded. Hand-picked cases: float sum/mean with array boundaries inside a window and inexact sums (windowed and whole-series); exactly 999/1000/1001/2001/1200 windows come first; ~3% of random cases have 1001-2500 points, mostly one per window (the tmp carry-over path); cases with >=100 points run a random 3-4 of the aggregates (term size), the others all supported ones. Non-trivial: >=2 points and (>=2 input arrays or >=2 windows). Distinct: distinct terms."
 	var rc jcase
 	if w.ReplayCase(&rc) {
 		run(w, &rc)
@@ -470,6 +484,22 @@ func main() {
 		c := jcase{S: s, Every: h.every, Off: int64(i) - 2, WinMsg: i%2 == 0, Sizes: h.sizes, Shards: []int{1 + i%3}, Aggs: h.aggs}
 		run(w, &c)
 	}
+	{ // float sums that depend on the order of additions: array boundaries INSIDE a window
+		fb := func(vs ...float64) []uint64 {
+			var o []uint64
+			for _, v := range vs {
+				o = append(o, math.Float64bits(v))
+			}
+			return o
+		}
+		sm := []string{"sum", "mean"}
+		for _, zero := range []bool{false, true} {
+			run(w, &jcase{S: wmock.Series{Ty: "float", T: []int64{0, 1, 2}, V: fb(0.1, 0.2, 0.3)}, Every: 10, Zero: zero, Sizes: []int{1, 2}, Aggs: sm})
+			run(w, &jcase{S: wmock.Series{Ty: "float", T: []int64{0, 1, 2, 3}, V: fb(1e16, 1, -1e16, 1)}, Every: 10, Zero: zero, Sizes: []int{1, 3}, WinMsg: true, Aggs: sm})
+			run(w, &jcase{S: wmock.Series{Ty: "float", T: []int64{-3, -2, 1, 2, 3, 4, 6, 7, 8, 11, 12, 13, 14},
+				V: fb(0.1, 0.2, 0.3, 0.7, 1e-9, 3.3, 1e16, 1, -1e16, 1.0/3.0, 0.1, 0.2, 0.3)}, Every: 5, Off: 1, Zero: zero, Sizes: []int{1, 2, 2, 3, 2, 3}, Shards: []int{2}, Aggs: sm})
+		}
+	}
 	{ // no data at all: with and without a window
 		c := jcase{S: wmock.Series{Ty: "float"}, Every: 10, Zero: true}
 		run(w, &c)
@@ -479,7 +509,12 @@ func main() {
 	everys := []int64{1, 2, 3, 5, 10, 60, 1000, 1000000000}
 	tys := []string{"int", "int", "int", "float", "float", "float", "uint", "uint", "bool", "str"}
 	for w.Len() < w.N {
+		ty := tys[r.IntN(len(tys))]
 		every := everys[r.IntN(len(everys))]
+		denseFloat := ty == "float" && r.IntN(2) == 0
+		if denseFloat && every < 10 { // several points (and several arrays) per window
+			every = []int64{10, 60, 1000}[r.IntN(3)]
+		}
 		offs := []int64{0, 1, -1, every - 1, every, every + 1, 2*every + 3, -every, -every - 1}
 		off := offs[r.IntN(len(offs))]
 		n, nag := 0, 0
@@ -498,10 +533,30 @@ func main() {
 			n = r.IntN(3)
 		default:
 			n = r.IntN(31)
+			if denseFloat {
+				gm = []int{0, 0, 2}[r.IntN(3)]
+				if gm == 2 {
+					every = 1000
+				}
+				n = 4 + r.IntN(27)
+			}
 		}
-		ty := tys[r.IntN(len(tys))]
-		c := jcase{S: gen(w, n, every, off, gm, ty), Every: every, Off: off, WinMsg: r.IntN(2) == 0, Zero: r.IntN(8) == 0}
+		var ser wmock.Series
+		if denseFloat && n < 100 {
+			ser = gen(w, n, every, off, gm, ty, 2) // inexact sums, several arrays per window
+		} else {
+			ser = gen(w, n, every, off, gm, ty)
+		}
+		c := jcase{S: ser, Every: every, Off: off, WinMsg: r.IntN(2) == 0, Zero: r.IntN(8) == 0}
 		c.Sizes = genSizes(w, n)
+		if denseFloat && n < 100 { // arrays of 1-4 points: boundaries inside the windows
+			c.Sizes = nil
+			for tot := 0; tot < n; {
+				k := 1 + r.IntN(4)
+				c.Sizes = append(c.Sizes, k)
+				tot += k
+			}
+		}
 		if nag > 0 {
 			c.Aggs = pickAggs(w, ty, nag)
 		}
